@@ -27,6 +27,13 @@ type peSpec struct {
 	// 0: zero entry; otherwise an address class of staleAddrKinds, CertAddrSalt picking the position inside a range.
 	CertAddrKind int
 	CertAddrSalt int
+	// Section headers that declare raw data but have no file pointer (SizeOfRawData = NoBits[i] > 0,
+	// PointerToRawData = 0: uninitialised data as some linkers emit it). No byte of the file belongs to such a
+	// section. They are extra entries of the section table, behind the other headers or (NoBitsFront) in front of
+	// them. Such an image lies outside the well-formed domain of the specification (raw data in front of the end
+	// of the headers); what a consumer does with it is asked of the consumer, never assumed.
+	NoBits      []int
+	NoBitsFront bool
 }
 
 // classes of a left-over certificate-table address (index = CertAddrKind)
@@ -53,6 +60,9 @@ func (s peSpec) class() string {
 	cl := fmt.Sprintf("%s/sec%d/zero%d/ordered=%v/gaps=%v/trail%s/certs%d", k, min(len(s.SecSizes), 9), min(nz, 2), ordered, gaps, sizeClass(s.Trailing), len(s.CertBodies))
 	if len(s.CertBodies) == 0 && s.CertAddrKind > 0 && s.CertAddrKind < len(staleAddrKinds) {
 		cl += "/addr=" + staleAddrKinds[s.CertAddrKind]
+	}
+	if len(s.NoBits) > 0 {
+		cl += fmt.Sprintf("/nobits%d", len(s.NoBits))
 	}
 	return cl
 }
@@ -132,8 +142,9 @@ func buildPE(s peSpec) builtPE {
 	}
 	optSize := optFixed + 8*s.NDirs
 	nsec := len(s.SecSizes)
+	nhdr := nsec + len(s.NoBits) // section headers: one per section with file data + the ones without a file pointer
 	secTab := s.Lfanew + 24 + optSize
-	soh := secTab + 40*nsec + s.SohSlack
+	soh := secTab + 40*nhdr + s.SohSlack
 	hdr := make([]byte, soh)
 	fill(hdr)
 	hdr[0], hdr[1] = 'M', 'Z'
@@ -141,7 +152,7 @@ func buildPE(s peSpec) builtPE {
 	copy(hdr[s.Lfanew:], []byte{'P', 'E', 0, 0})
 	coff := s.Lfanew + 4
 	binary.LittleEndian.PutUint16(hdr[coff:], s.Machine)
-	binary.LittleEndian.PutUint16(hdr[coff+2:], uint16(nsec))
+	binary.LittleEndian.PutUint16(hdr[coff+2:], uint16(nhdr))
 	binary.LittleEndian.PutUint32(hdr[coff+8:], 0)  // PointerToSymbolTable
 	binary.LittleEndian.PutUint32(hdr[coff+12:], 0) // NumberOfSymbols
 	binary.LittleEndian.PutUint16(hdr[coff+16:], uint16(optSize))
@@ -168,9 +179,28 @@ func buildPE(s peSpec) builtPE {
 	}
 	body = append(body, make([]byte, s.Trailing)...)
 	fill(body)
+	first := 0 // table index of the first header of a section with file data
+	if s.NoBitsFront {
+		first = len(s.NoBits)
+	}
+	for i, z := range s.NoBits {
+		e := secTab + 40*(nsec+i)
+		if s.NoBitsFront {
+			e = secTab + 40*i
+		}
+		for j := 0; j < 8; j++ {
+			hdr[e+j] = 'a' + hdr[e+j]%26
+		}
+		binary.LittleEndian.PutUint32(hdr[e+8:], uint32(z))   // VirtualSize
+		binary.LittleEndian.PutUint32(hdr[e+16:], uint32(z))  // SizeOfRawData
+		binary.LittleEndian.PutUint32(hdr[e+20:], 0)          // PointerToRawData: none
+		binary.LittleEndian.PutUint32(hdr[e+24:], 0)          // PointerToRelocations
+		binary.LittleEndian.PutUint16(hdr[e+32:], 0)          // NumberOfRelocations
+		binary.LittleEndian.PutUint32(hdr[e+36:], 0xC0000080) // uninitialised data, read, write
+	}
 	for i := 0; i < nsec; i++ {
 		k := s.HdrOrder[i]
-		e := secTab + 40*i
+		e := secTab + 40*(first+i)
 		for j := 0; j < 8; j++ {
 			hdr[e+j] = 'a' + hdr[e+j]%26
 		}
@@ -265,9 +295,13 @@ func (m *splitMix) next() uint64 {
 }
 
 func specCase(s peSpec) Case {
-	return Case{"op": "image", "plus": s.Plus, "lfanew": int64(s.Lfanew), "ndirs": int64(s.NDirs), "secsizes": intsI(s.SecSizes), "hdrorder": intsI(s.HdrOrder),
+	cs := Case{"op": "image", "plus": s.Plus, "lfanew": int64(s.Lfanew), "ndirs": int64(s.NDirs), "secsizes": intsI(s.SecSizes), "hdrorder": intsI(s.HdrOrder),
 		"gapafterh": int64(s.GapAfterH), "gaps": intsI(s.Gaps), "sohslack": int64(s.SohSlack), "trailing": int64(s.Trailing), "certbodies": intsI(s.CertBodies),
 		"machine": int64(s.Machine), "seed": s.Seed, "vsizes": intsI(s.VSizes), "certaddr": int64(s.CertAddrKind), "certaddrsalt": int64(s.CertAddrSalt)}
+	if len(s.NoBits) > 0 { // only then: the cases (and replay files) of all other images stay as they were
+		cs["nobits"], cs["nobitsfront"] = intsI(s.NoBits), s.NoBitsFront
+	}
+	return cs
 }
 
 func intsI(xs []int) []interface{} {
@@ -297,7 +331,8 @@ func caseInts(v interface{}) []int {
 
 func specOfCase(cs Case) peSpec {
 	plus, _ := cs["plus"].(bool)
-	return peSpec{Plus: plus, Lfanew: int(cs.I("lfanew")), NDirs: int(cs.I("ndirs")), SecSizes: caseInts(cs["secsizes"]), HdrOrder: caseInts(cs["hdrorder"]),
+	front, _ := cs["nobitsfront"].(bool)
+	return peSpec{NoBits: caseInts(cs["nobits"]), NoBitsFront: front, Plus: plus, Lfanew: int(cs.I("lfanew")), NDirs: int(cs.I("ndirs")), SecSizes: caseInts(cs["secsizes"]), HdrOrder: caseInts(cs["hdrorder"]),
 		GapAfterH: int(cs.I("gapafterh")), Gaps: caseInts(cs["gaps"]), SohSlack: int(cs.I("sohslack")), Trailing: int(cs.I("trailing")), CertBodies: caseInts(cs["certbodies"]),
 		Machine: uint16(cs.I("machine")), Seed: cs.I("seed"), VSizes: caseInts(cs["vsizes"]), CertAddrKind: int(cs.I("certaddr")), CertAddrSalt: int(cs.I("certaddrsalt"))}
 }
